@@ -86,9 +86,9 @@ Proof.
   assert (Hrest : leader_completeness h).
   { intros h1 h2 i t idx e j t' log -> Hin. eapply (H (g :: h1)); [reflexivity | exact Hin]. }
   specialize (IH Hrest).
-  destruct g as [| | | i [|] t idx e | |]; auto.
+  destruct g as [| | | i [|] t idx e | | |]; auto.
   rewrite IH, andb_true_r. apply forallb_forall; intros g Hg.
-  destruct g as [| | j t' log | | |]; auto.
+  destruct g as [| | j t' log | | | |]; auto.
   apply oentry_eqb_eq. eapply (H []); [reflexivity | exact Hg].
 Qed.
 
@@ -101,7 +101,7 @@ Proof.
       rewrite forallb_forall in H. specialize (H _ Hin). cbn in H. apply oentry_eqb_eq; exact H.
     + eapply IH; [|reflexivity|exact Hin].
       cbn [leader_completeness_b] in H.
-      destruct g1 as [| | | ? [|] ? ? ? | |]; auto. apply andb_true_iff in H as [_ H]; exact H.
+      destruct g1 as [| | | ? [|] ? ? ? | | |]; auto. apply andb_true_iff in H as [_ H]; exact H.
 Qed.
 
 (* ================================================================== refutations (witness event lists, vm_compute) *)
@@ -133,16 +133,23 @@ Proof.
   split; [exact D|]. intros H. apply election_safety_b_sound in H. congruence.
 Qed.
 
+
+(* which of the five decidable defect classes occur in a history:
+   (double vote, stale vote counted, ack from diverged log, old-term commit, ack below voted term) *)
+Definition classes (h : list ghost) : bool * bool * bool * bool * bool :=
+  (double_vote_b h, stale_vote_b h, ack_diverged_b h, old_term_commit_b h, ack_below_vote_b h).
+
 (* C28c *)
 Lemma w28_facts :
   (let c := run w28_ack_diverged_n w28_ack_diverged in
-   committed_agree_b c = false /\ known_class_b (c_hist c) = true /\
-   double_vote_b (c_hist c) = false /\ stale_vote_b (c_hist c) = false /\ old_term_commit_b (c_hist c) = false /\
-   election_safety_b (c_hist c) = true) /\
+   committed_agree_b c = false /\ election_safety_b (c_hist c) = true /\
+   classes (c_hist c) = (false, false, true, false, false)) /\
   (let c := run w28_old_term_commit_n w28_old_term_commit in
-   committed_agree_b c = false /\
-   double_vote_b (c_hist c) = false /\ stale_vote_b (c_hist c) = false /\ ack_diverged_b (c_hist c) = false /\
-   election_safety_b (c_hist c) = true) /\
+   committed_agree_b c = false /\ election_safety_b (c_hist c) = true /\
+   classes (c_hist c) = (false, false, false, true, false)) /\
+  (let c := run w28_ack_below_vote_n w28_ack_below_vote in
+   committed_agree_b c = false /\ election_safety_b (c_hist c) = true /\
+   classes (c_hist c) = (false, false, false, false, true)) /\
   (let c := run w28_double_vote_n w28_double_vote in committed_agree_b c = false /\ double_vote_b (c_hist c) = true) /\
   (let c := run w28_stale_vote_n w28_stale_vote in committed_agree_b c = false /\ stale_vote_b (c_hist c) = true).
 Proof. vm_compute. repeat split; reflexivity. Qed.
@@ -153,24 +160,31 @@ Proof.
   apply committed_agree_b_sound in H. destruct w28_facts as [[F _] _]. cbv zeta in F. congruence.
 Qed.
 
-(* even with one leader per term, no double vote, no stale vote: agreement fails (two distinct causes) *)
-Lemma C28c_refuted_single_leader :
+(* agreement fails in histories with one leader per term in which exactly one defect class occurs:
+   three independent causes *)
+Definition refuted_agree_with (cl : bool * bool * bool * bool * bool) : Prop :=
   exists size evs, let c := run size evs in
-    election_safety (c_hist c) /\ double_vote_b (c_hist c) = false /\ stale_vote_b (c_hist c) = false /\
-    old_term_commit_b (c_hist c) = false /\ ~ committed_agree c.
+    election_safety (c_hist c) /\ classes (c_hist c) = cl /\ ~ committed_agree c.
+
+Lemma C28c_refuted_ack_diverged : refuted_agree_with (false, false, true, false, false).
 Proof.
-  exists w28_ack_diverged_n, w28_ack_diverged. destruct w28_facts as [[F [_ [D [S [O E]]]]] _]. cbv zeta in *.
+  exists w28_ack_diverged_n, w28_ack_diverged. destruct w28_facts as [[F [E C]] _]. cbv zeta in *.
   repeat split; auto.
   - apply election_safety_b_complete; exact E.
   - intros H. apply committed_agree_b_sound in H. congruence.
 Qed.
 
-Lemma C28c_refuted_old_term_commit :
-  exists size evs, let c := run size evs in
-    election_safety (c_hist c) /\ double_vote_b (c_hist c) = false /\ stale_vote_b (c_hist c) = false /\
-    ack_diverged_b (c_hist c) = false /\ ~ committed_agree c.
+Lemma C28c_refuted_old_term_commit : refuted_agree_with (false, false, false, true, false).
 Proof.
-  exists w28_old_term_commit_n, w28_old_term_commit. destruct w28_facts as [_ [[F [D [S [A E]]]] _]]. cbv zeta in *.
+  exists w28_old_term_commit_n, w28_old_term_commit. destruct w28_facts as [_ [[F [E C]] _]]. cbv zeta in *.
+  repeat split; auto.
+  - apply election_safety_b_complete; exact E.
+  - intros H. apply committed_agree_b_sound in H. congruence.
+Qed.
+
+Lemma C28c_refuted_ack_below_vote : refuted_agree_with (false, false, false, false, true).
+Proof.
+  exists w28_ack_below_vote_n, w28_ack_below_vote. destruct w28_facts as [_ [_ [[F [E C]] _]]]. cbv zeta in *.
   repeat split; auto.
   - apply election_safety_b_complete; exact E.
   - intros H. apply committed_agree_b_sound in H. congruence.
@@ -179,11 +193,11 @@ Qed.
 (* C29 *)
 Lemma w29_facts :
   (let h := c_hist (run w29_old_term_commit_n w29_old_term_commit) in
-   leader_completeness_b h = false /\ old_term_commit_b h = true /\
-   double_vote_b h = false /\ stale_vote_b h = false /\ ack_diverged_b h = false /\ election_safety_b h = true) /\
+   leader_completeness_b h = false /\ election_safety_b h = true /\ classes h = (false, false, false, true, false)) /\
   (let h := c_hist (run w29_ack_diverged_n w29_ack_diverged) in
-   leader_completeness_b h = false /\ ack_diverged_b h = true /\
-   double_vote_b h = false /\ stale_vote_b h = false /\ old_term_commit_b h = false /\ election_safety_b h = true) /\
+   leader_completeness_b h = false /\ election_safety_b h = true /\ classes h = (false, false, true, false, false)) /\
+  (let h := c_hist (run w29_ack_below_vote_n w29_ack_below_vote) in
+   leader_completeness_b h = false /\ election_safety_b h = true /\ classes h = (false, false, false, false, true)) /\
   (let h := c_hist (run w29_double_vote_n w29_double_vote) in leader_completeness_b h = false /\ double_vote_b h = true) /\
   (let h := c_hist (run w29_stale_vote_n w29_stale_vote) in leader_completeness_b h = false /\ stale_vote_b h = true).
 Proof. vm_compute. repeat split; reflexivity. Qed.
@@ -194,12 +208,29 @@ Proof.
   apply leader_completeness_b_sound in H. destruct w29_facts as [[F _] _]. cbv zeta in F. congruence.
 Qed.
 
-Lemma C29_refuted_single_leader :
+Definition refuted_completeness_with (cl : bool * bool * bool * bool * bool) : Prop :=
   exists size evs, let h := c_hist (run size evs) in
-    election_safety h /\ double_vote_b h = false /\ stale_vote_b h = false /\ ack_diverged_b h = false /\
-    ~ leader_completeness h.
+    election_safety h /\ classes h = cl /\ ~ leader_completeness h.
+
+Lemma C29_refuted_old_term_commit : refuted_completeness_with (false, false, false, true, false).
 Proof.
-  exists w29_old_term_commit_n, w29_old_term_commit. destruct w29_facts as [[F [_ [D [S [A E]]]]] _]. cbv zeta in *.
+  exists w29_old_term_commit_n, w29_old_term_commit. destruct w29_facts as [[F [E C]] _]. cbv zeta in *.
+  repeat split; auto.
+  - apply election_safety_b_complete; exact E.
+  - intros H. apply leader_completeness_b_sound in H. congruence.
+Qed.
+
+Lemma C29_refuted_ack_diverged : refuted_completeness_with (false, false, true, false, false).
+Proof.
+  exists w29_ack_diverged_n, w29_ack_diverged. destruct w29_facts as [_ [[F [E C]] _]]. cbv zeta in *.
+  repeat split; auto.
+  - apply election_safety_b_complete; exact E.
+  - intros H. apply leader_completeness_b_sound in H. congruence.
+Qed.
+
+Lemma C29_refuted_ack_below_vote : refuted_completeness_with (false, false, false, false, true).
+Proof.
+  exists w29_ack_below_vote_n, w29_ack_below_vote. destruct w29_facts as [_ [_ [[F [E C]] _]]]. cbv zeta in *.
   repeat split; auto.
   - apply election_safety_b_complete; exact E.
   - intros H. apply leader_completeness_b_sound in H. congruence.
